@@ -47,7 +47,7 @@ def _cond_array(ctx, kind, N, m, tr=None, species=None):
     if kind == "bool":
         a = ctx.array("A", (N,), "bool")
         return a, lambda i: a.get((i,))
-    if kind == "species":       # boolean selection of one species: A_i = [type_i == a]
+    if kind.startswith("species"):       # boolean selection of one species: A_i = [type_i == a]
         a = ctx.array_of((N,), lambda idx: sv.cmp("==", tr.typ(0, idx[0]), species), "bool", name="A")
         return a, lambda i: sv.cmp("==", tr.typ(0, i), species)
     if kind == "alltrue":
@@ -85,7 +85,7 @@ def _re_mul_conj(x, y):
 
 def weight(kind, el, i, j, m):
     """w_ij of the statement"""
-    if kind in ("bool", "species", "alltrue"):
+    if kind in BOOL_KINDS:
         return sv.ite(sv.and_(el(i), el(j)), 1, 0)
     if kind in ("float", "complex", "ones"):
         return _re_mul_conj(el(i), el(j))
@@ -136,8 +136,9 @@ GR_KINDS = {
     # kind: (conditiontype argument, has gA_norm)
     "bool": (None, False), "float": (None, True), "complex": (None, False),
     "vector": ("vector", False), "cvector": ("vector", False), "tensor": ("tensor", False),
-    "species": (None, False), "alltrue": (None, False), "ones": (None, True),
+    "species1": (None, False), "species2": (None, False), "alltrue": (None, False), "ones": (None, True),
 }
+BOOL_KINDS = ("bool", "species1", "species2", "alltrue")
 
 
 class CondGr(Unit):
@@ -145,7 +146,7 @@ class CondGr(Unit):
     qualname = "conditional_gr"
     prop = "C13"
     summaries = PBC
-    timeout = 30
+    timeout = 8
     solver_opts = {"rounds": 4}
 
     def cases(self):
@@ -191,14 +192,14 @@ class CondGr(Unit):
             ct = "matrix"
         else:
             sp = None
-            if kind == "species":
-                sp = ctx.int("a")
+            if kind.startswith("species"):
+                sp = int(kind[-1])
                 inp["a"] = sp
             cond, el = _cond_array(ctx, kind, N, m, tr=tr, species=sp)
             ct = GR_KINDS[kind][0]
         inp["el"] = el
         inp["cond"] = cond
-        if kind in ("bool", "species", "alltrue"):
+        if kind in BOOL_KINDS:
             NA = Sum(0, N, lambda i: sv.ite(el(i), 1, 0))
             ctx.assume(sv.cmp(">=", NA, 1))         # at least one selected particle
         else:
@@ -220,6 +221,10 @@ class CondGr(Unit):
                  "gA:count", "gA:normalisation", "div0"]
         if kind == "float":
             names += ["gA_norm"]
+        if kind.startswith("species"):
+            names += ["reduction:count=cnt_aa(C03)", "reduction:gA=g_aa(C03)"]
+        if kind in ("alltrue", "ones"):
+            names += ["reduction:count=cnt_total(C03)", "reduction:gA=g_total(C03)", "reduction:N_A=N", "reduction:gA=gr"]
         return names
 
     def may_only_raise(self, case):
@@ -271,6 +276,39 @@ class CondGr(Unit):
             yield f"{name}:count", gen(sv.implies(inr, sv.cmp("==", raw, want)))
             gn = gen(sv.implies(sv.and_(inr, sv.cmp(">=", na, 1)), sv.cmp("==", v, gA_spec(inp, raw, na, k))), [raw] + ([na] if na is not N else []))
             yield f"{name}:normalisation", gn, {"ring_only": True}
+            if name == "gA" and (kind.startswith("species") or kind in ("alltrue", "ones")):
+                # reductions to the C03 specs (T = 1 frame): the partial g_aa of the selected species / the total g(r)
+                ab = (inp["a"], inp["a"]) if kind.startswith("species") else None
+                inp03 = dict(tr=inp["tr"], T=1, N=N, rd=inp["rd"], B=Bt, p=inp["p"], d=inp["d"], V=inp["V"],
+                             Na={(ab[0] - 1 if ab else 0): na})
+                cnt03 = c03_cnt_spec(inp03, ab, k)
+                tag = "aa" if ab else "total"
+                yield f"reduction:count=cnt_{tag}(C03)", gen(sv.implies(inr, sv.cmp("==", raw, cnt03)))
+                if ab:
+                    g2 = gen(sv.implies(sv.and_(inr, sv.cmp(">=", na, 1)), sv.cmp("==", v, g_spec(inp03, ab, raw, k))), [raw, na])
+                else:
+                    # N_A = N is its own obligation (constant-sum rule); the identity is then shown with N_A rewritten to N
+                    yield "reduction:N_A=N", sv.cmp("==", na, N)
+                    g2 = sv.zb(sv.implies(inr, sv.cmp("==", v, g_spec(inp03, ab, raw, k))))
+                    if na is not N:
+                        g2 = z3.substitute(g2, (sv.znum(na), sv.znum(N)))
+                    g2 = gen(g2, [raw])
+                yield f"reduction:gA=g_{tag}(C03)", g2, {"ring_only": True}
+                if not ab:
+                    # gA = the function's own total column: both counts equal the same spec count (gr:count, reduction:count=...),
+                    # N_A = N (above); remaining identity with the common count generalised
+                    vgr = c["gr"].get((k,))
+                    sgr = outer_sigmas(sv.zr(vgr))
+                    same_spec = sv.znum(cnt03).eq(sv.znum(cntw_spec(inp, None, k, Bt)))
+                    if len(sgr) == 1 and same_spec:
+                        Ri = z3.Int("R_count")
+                        g3 = sv.zb(sv.implies(inr, sv.cmp("==", v, vgr)))
+                        pairs = [(t, Ri if z3.is_int(t) else z3.ToReal(Ri)) for t in (sig[0], sgr[0])]
+                        pairs += [(sv.znum(na), sv.znum(N))] if na is not N else []
+                        g3 = z3.substitute(g3, *pairs)
+                        yield "reduction:gA=gr", gen(g3), {"ring_only": True}
+                    else:
+                        yield "reduction:gA=gr", False
         # divisors introduced by the code: N, N_A (>= 1 by precondition), V = prod L > 0, shell_k > 0
         rd = inp["rd"]
         shell_pos = sv.cmp(">", sv.sub(sv.power(sv.mul(sv.add(k, 1), rd), inp["d"]), sv.power(sv.mul(k, rd), inp["d"])), 0)
@@ -283,7 +321,156 @@ class CondGr(Unit):
             yield "gA_norm", gen(sv.implies(inr, sv.cmp("==", v, want))), {"ring_only": True}
 
     def replay(self, case, clause, model, seed):
-        return {"ran": False, "failed": False}
+        d, kind, m = self._parse(case)
+        return _replay_cgr(d, kind, m, clause, model, seed)
+
+
+def _brute_gr(pos, H, ppp, rdelta, B, W):
+    """sum over ordered pairs i != j of W[i, j] [ |min-image(r_j - r_i)| in bin k ] (numpy bin convention on [0, B rdelta]);
+    returns (hist (B,), near_edge flag)"""
+    import numpy as np
+    N = len(pos)
+    Hinv = np.linalg.inv(H)
+    hist = np.zeros(B)
+    near = False
+    for i in range(N):
+        for j in range(N):
+            if i == j:
+                continue
+            mm = (pos[j] - pos[i]) @ Hinv
+            mm = mm - np.rint(mm) * ppp
+            r = float(np.linalg.norm(mm @ H))
+            if abs(r / rdelta - round(r / rdelta)) < 1e-9:
+                near = True
+            if r > B * rdelta:
+                continue
+            b = B - 1 if r >= B * rdelta else min(int(r / rdelta), B - 1)
+            hist[b] += W[i, j]
+    return hist, near
+
+
+def _replay_cgr(d, kind, m, clause, model, seed):
+    """real conditional_gr on seeded configurations (orthogonal and triclinic cells, mixed periodicity) against the brute-force
+    weighted ordered-pair histogram of the statement"""
+    import importlib
+
+    import logging
+
+    import numpy as np
+    logging.disable(logging.CRITICAL)
+    G = importlib.import_module(MOD_GR)
+    RUm = importlib.import_module("PyMatterSim.reader.reader_utils")
+    rng = np.random.default_rng(seed + 31 * d + sum(map(ord, kind)))
+    tried = 0
+    if kind == "badtype":
+        N = 5
+        L = np.full(d, 4.0)
+        snap = RUm.SingleSnapshot(timestep=0, nparticle=N, particle_type=np.ones(N, dtype=int), positions=rng.uniform(0, 4, size=(N, d)), boxlength=L,
+                                  boxbounds=np.column_stack([np.zeros(d), L]), realbounds=np.column_stack([np.zeros(d), L]), hmatrix=np.diag(L))
+        for ct in ("matrix", "Vector", "scalar"):
+            try:
+                G.conditional_gr(snap, rng.uniform(size=N), conditiontype=ct, ppp=np.ones(d, dtype=int), rdelta=0.5)
+                return {"ran": True, "failed": True, "detail": f"conditiontype={ct!r} does not raise ValueError"}
+            except ValueError:
+                pass
+            except Exception as e:
+                return {"ran": True, "failed": True, "detail": f"conditiontype={ct!r} raises {type(e).__name__}, expected ValueError"}
+        return {"ran": True, "failed": False, "searched": 3}
+    for trial in range(10):
+        N = int(rng.integers(2, 14)) if trial else 2
+        L = rng.uniform(3.0, 6.0, size=d)
+        H = np.diag(L)
+        if trial % 2 == 1:
+            H[1, 0] = rng.uniform(-0.4, 0.4) * L[0]
+            if d == 3:
+                H[2, 0] = rng.uniform(-0.3, 0.3) * L[0]
+                H[2, 1] = rng.uniform(-0.3, 0.3) * L[1]
+        ppp = np.array([int(rng.integers(0, 2)) for _ in range(d)]) if trial >= 4 else np.ones(d, dtype=int)
+        rdelta = float(rng.choice([0.25, 0.4, 0.5]))
+        pos = rng.uniform(0, 1, size=(N, d)) @ H
+        types = np.array([1 + (i % 2) for i in range(N)])
+        rng.shuffle(types)
+        ct = GR_KINDS[kind][0]
+        if kind == "bool":
+            cond = rng.uniform(size=N) < 0.6
+            if not cond.any():
+                cond[0] = True
+        elif kind.startswith("species"):
+            cond = types == int(kind[-1])
+            if not cond.any():
+                continue
+        elif kind == "alltrue":
+            cond = np.ones(N, dtype=bool)
+        elif kind == "ones":
+            cond = np.ones(N)
+        elif kind == "float":
+            cond = rng.normal(size=N)
+        elif kind == "complex":
+            cond = rng.normal(size=N) + 1j * rng.normal(size=N)
+        elif kind == "vector":
+            cond = rng.normal(size=(N, m))
+        elif kind == "cvector":
+            cond = rng.normal(size=(N, m)) + 1j * rng.normal(size=(N, m))
+        elif kind == "tensor":
+            cond = rng.normal(size=(N, m, m))
+            if trial % 3 == 0:
+                cond = cond + np.transpose(cond, (0, 2, 1))     # symmetric tensors in a third of the samples
+        snap = RUm.SingleSnapshot(timestep=0, nparticle=N, particle_type=types.copy(), positions=pos.copy(), boxlength=L.copy(),
+                                  boxbounds=np.column_stack([np.zeros(d), L]), realbounds=np.column_stack([np.zeros(d), L]), hmatrix=H.copy())
+        inputs = {"d": d, "kind": kind, "N": N, "hmatrix": H.tolist(), "ppp": ppp.tolist(), "rdelta": rdelta, "positions": pos.tolist(),
+                  "condition": np.asarray(cond).tolist() if np.asarray(cond).dtype != complex else [str(x) for x in np.asarray(cond).ravel()], "conditiontype": ct}
+        try:
+            import warnings
+            with warnings.catch_warnings():
+                warnings.simplefilter("ignore")
+                res = G.conditional_gr(snap, cond.copy(), conditiontype=ct, ppp=ppp, rdelta=rdelta)
+        except Exception as e:
+            return {"ran": True, "failed": True, "detail": f"raises {type(e).__name__}: {e}", "inputs": inputs, "searched": tried}
+        tried += 1
+        B = int(L.min() / 2.0 / rdelta)
+        V = float(np.prod(L))
+        edges = np.arange(B + 1) * rdelta
+        shell = (4.0 / 3 if d == 3 else 1.0) * np.pi * (edges[1:] ** d - edges[:-1] ** d)
+        if kind in BOOL_KINDS:
+            a = cond.astype(float)
+            W = np.outer(a, a)
+            NA = int(cond.sum())
+        elif kind in ("float", "ones", "complex"):
+            W = np.real(np.outer(cond, np.conj(cond)))
+            NA = N
+        elif kind in ("vector", "cvector"):
+            W = np.real(np.einsum("ic,jc->ij", cond, np.conj(cond)))
+            NA = N
+        else:
+            W = np.einsum("iab,jba->ij", cond, cond)
+            NA = N
+        want_cols = ["r", "gr", "gA"] + (["gA_norm"] if GR_KINDS[kind][1] else [])
+        if list(res.columns) != want_cols or len(res) != B:
+            return {"ran": True, "failed": True, "detail": f"columns {list(res.columns)} / {len(res)} rows, expected {want_cols} / {B}", "inputs": inputs}
+        h1, near = _brute_gr(pos, H, ppp, rdelta, B, np.ones((N, N)))
+        hA, _ = _brute_gr(pos, H, ppp, rdelta, B, W)
+        if near:
+            continue
+        want = {"r": edges[1:] - rdelta / 2, "gr": V * h1 / (N * N * shell), "gA": V * hA / (NA * NA * shell)}
+        if kind == "float":
+            mean, msq = cond.mean(), (cond ** 2).mean()
+            want["gA_norm"] = (want["gA"] - mean ** 2) / (msq - mean ** 2)
+        if kind in ("alltrue", "ones"):
+            want["gA"] = want["gr"]          # A = 1 reproduces the total
+        for name, w in want.items():
+            got = res[name].values.astype(float)
+            if not np.allclose(got, w, rtol=1e-9, atol=1e-12):
+                kb = int(np.argmax(np.abs(got - w)))
+                return {"ran": True, "failed": True, "searched": tried, "inputs": inputs,
+                        "detail": f"column {name}, bin {kb}: got {got[kb]!r}, expected {w[kb]!r} (weighted ordered-pair histogram, 2 V cnt / (N_A^2 shell))"}
+        if kind.startswith("species") or kind == "alltrue":
+            # the same numbers from the real gr class (binary system / total), one frame
+            S = RUm.Snapshots(nsnapshots=1, snapshots=[snap])
+            ref = G.gr(S, ppp=ppp, rdelta=rdelta).getresults()
+            col = f"gr{kind[-1]}{kind[-1]}" if kind.startswith("species") else "gr"
+            if len(set(types.tolist())) == 2 and not np.allclose(res["gA"].values, ref[col].values, rtol=1e-9, atol=1e-12):
+                return {"ran": True, "failed": True, "searched": tried, "inputs": inputs, "detail": f"gA differs from gr(...).getresults()[{col!r}]"}
+    return {"ran": True, "failed": False, "searched": tried}
 
 
 UNITS = [CondGr()]
